@@ -9,7 +9,7 @@ CLAIMS = {
  "C20": ("bounded symbolic execution (symx over z3) of the real utils.mult_matrix/apply_matrix_*/translate_matrix and utils.Plane",
          "For all real-valued matrices, points and rectangles the affine laws hold (one z3 query each, unsat of the negation); apply_matrix_rect is the tight "
          "hull on all 121 paths, also for translations up to 2^40 (far beyond the library's INF sentinel); for every add/remove/find/iterate sequence within the bound and ALL real box/query coordinates in the stated window "
-         "the real Plane agrees with a brute-force list model, incl. insertion order under re-insertion (every add/remove sequence of 5 operations) and bulk insertion through extend() with lists, tuples, generators, iterators and maps. Bounded model checking of the real code: holds for every value inside the bounds, nothing is claimed outside.",
+         "the real Plane (index bounds: squares at / around / off the origin and two rectangles with four different bounds) agrees with a brute-force list model, incl. insertion order under re-insertion (every add/remove sequence of 5 operations) and bulk insertion through extend() with lists, tuples, generators, iterators and maps. Bounded model checking of the real code: holds for every value inside the bounds, nothing is claimed outside.",
          "4.C20"),
 }
 CLAIMS.update({
@@ -30,7 +30,7 @@ CLAIMS.update({
 CLAIMS["C04"] = ("bounded symbolic execution (symx) of the real PDFPage.get_pages / create_pages / __init__ and PDFPageInterpreter.process_page + begin_page",
          "For every page_numbers container (None, list, set of up to 3 symbolic ints) and every symbolic maxpages the pages returned are exactly the selected ones below the limit; for every "
          "tree of up to 3 (thorough 4) nodes with symbolic Kids (repeats, cycles), Type and placement (absent/direct/indirect, incl. falsy values) of each inheritable attribute the pages equal a "
-         "pre-order DFS with nearest-ancestor inheritance; Rotate is normalised for every int; for every real MediaBox (with or without a CropBox inside it) and Rotate=90k+360t the page CTM is the clockwise rotation onto (0,0,W,H) and LTPage.bbox is that box; generated documents whose page tree is a chain of 1..120 nested nodes with 2 or 4 pages each give every page, in document order, with the nearest ancestor's box and rotation, also under page_numbers.",
+         "pre-order DFS with nearest-ancestor inheritance; Rotate is normalised for every int; for every real MediaBox (with or without a CropBox inside it) and Rotate=90k+360t the page CTM is the clockwise rotation onto (0,0,W,H) and LTPage.bbox is that box; generated documents whose page tree is a chain of 1..120 nested nodes with 2 or 4 pages each give every page, in document order, with the nearest ancestor's box and rotation, also under page_numbers; in two-page runs (4 x 4 rotations, two boxes, four things page 1 leaves open, 0-2 surplus Q on page 2) every page's glyphs are mapped by its own Rotate and MediaBox, in one run and page by page.",
          "4.C04")
 CLAIMS["C05"] = ("bounded symbolic execution (symx, real arithmetic) of the real PDFPageInterpreter.do_* text/graphics-state operators, PDFTextDevice.render_string*, render_char and LTChar against a reference interpreter of ISO 32000-1 9.3-9.4",
          "For every program BT Tf + K operators chosen symbolically from 22 (K=2 quick, 3 thorough) + Tj with ALL operands, font size and glyph widths symbolic reals, each glyph's matrix, advance, "
@@ -60,11 +60,11 @@ CLAIMS["C09"] = ("bounded symbolic execution (symx, real arithmetic) of the real
 CLAIMS["C02"] = ("bounded symbolic execution (symx) of the real PDFXRefStream.get_pos/get_objids, PDFDocument.getobj/_getobj_objstm/read_xref_from/find_xref and PDFXRef.load",
          "For all /Index ranges (symbolic starts), field widths, ALL entry bytes and every object number the cross-reference stream decoding equals ISO 7.5.8; for every revision table (each object absent/direct/"
          "in an object stream, per revision) getobj returns the newest definition with caching on or off; for every Prev/XRefStm pointer graph (incl. cycles) sections load newest -> XRefStm -> Prev, each once; "
-         "classic tables and startxref are read for every subsection partition, EOL form and buffer size (enumeration harnesses); a single-revision classic-table file whose startxref offset or table is unreadable (17 damages x 3 line-end styles x object bodies on their own line or on the obj line x caching) is recovered by the body scan: every object, the catalog, the in-use numbers and the text. Tables that are readable but point to wrong offsets are not recovered by the library and not claimed.",
+         "classic tables and startxref are read for every subsection partition, EOL form and buffer size (enumeration harnesses); a single-revision classic-table file whose startxref offset or table is unreadable (17 damages x 3 line-end styles x object bodies on their own line or on the obj line x endstream after an end-of-line or directly after the data x caching) is recovered by the body scan: every object, the catalog, the in-use numbers and the text. Tables that are readable but point to wrong offsets are not recovered by the library and not claimed.",
          "4.C02")
 CLAIMS["C17"] = ("bounded symbolic execution (symx) of the real NumberTree, PageLabels.labels, format_int_roman/alpha, lookup_name/get_dest, get_outlines and decode_text",
          "Number trees with symbolic keys flatten sorted; format_int_roman equals the reference for every symbolic value 1..3999 (digits discovered by forking); page labels for every range/style/St/prefix "
-         "choice within the bound equal ISO 12.4.2 (alpha beyond 26 is a known finding); get_dest finds exactly the present keys in every tree shape with Limits and raises the not-found error otherwise; "
+         "choice within the bound, with settings.STRICT off and on, equal ISO 12.4.2 (alpha beyond 26 is a known finding); get_dest finds exactly the present keys in every tree shape with Limits and raises the not-found error otherwise; "
          "get_outlines yields every conforming forest of 4 items in pre-order with levels, terminates on any redirected Next/First pointer, and does not deepen the stack along sibling chains; decode_text gives the ISO 32000-1 Annex D.2 character for every defined PDFDocEncoding code, byte-wise, and UTF-16BE after a BOM.",
          "4.C17")
 CLAIMS["C18"] = ("bounded symbolic execution (symx, symbolic bytes) of the real ImageWriter.export_image/_save_bmp/BMPWriter and PDFContentParser inline-image scanning",
@@ -106,11 +106,11 @@ CLAIMS["C13"] = ("symbolic execution (symx) of the typed accessors, tree/chain w
          "PARTIAL by design (fault sequences over whole real documents are whole-program runs): for every reference graph over 3 objects (self-loops, cycles, dangling) and every value kind each accessor terminates "
          "within a look-up bound and raises only the library family; number-tree Kids cycles and object-stream containment cycles terminate; rldecode on ALL byte strings of <= 3 bytes, the predictors on every "
          "geometry incl. 0 and the ASCII/LZW/CCITT filters on corrupt payloads raise only the library family; every single fault (12 kinds at every key, nested entry and array element: 44 sites of an 8-object and 185 sites of a 24-object feature-rich seed document) and every truncation of both documents keeps "
-         "extract_text inside the family, without hang or recursion exhaustion; the same document stored in an object stream + cross-reference stream: every truncation of both payloads and 49 ill-valued /N /First /W /Index /Size /Prev ... entries; every entry of an R2/R3/R4 encryption dictionary; 25 counts / ranges / sizes / offsets set to numbers far beyond the file (work stays within 5 s and 2 GiB); every token of a ToUnicode CMap program; every truncation and single-byte corruption of embedded TrueType / Type 1 font programs; page trees with shared or mutually cyclic nodes (chains with repeated kids, diamonds, cliques) stay within the work bound; every operand of a content stream that uses every operator kind replaced by a value of another type or removed, every inline-image entry replaced / removed / valueless / doubled. Each counterexample is replayed through extract_text on a generated PDF.",
+         "extract_text inside the family, without hang or recursion exhaustion; the same document stored in an object stream + cross-reference stream: every truncation of both payloads and 49 ill-valued /N /First /W /Index /Size /Prev ... entries; every entry of an R2/R3/R4 encryption dictionary; 25 counts / ranges / sizes / offsets set to numbers far beyond the file (work stays within 5 s and 2 GiB); every token of a ToUnicode CMap program; every truncation and single-byte corruption of embedded TrueType / Type 1 font programs; /Prev offsets -8..+8 around a cross-reference section in one- and two-section files (work bounds are CPU time of the process, wall-clock backstop 60 s); page trees with shared or mutually cyclic nodes (chains with repeated kids, diamonds, cliques) stay within the work bound; every operand of a content stream that uses every operator kind replaced by a value of another type or removed, every inline-image entry replaced / removed / valueless / doubled. Each counterexample is replayed through extract_text on a generated PDF.",
          "4.C13")
 CLAIMS["C12"] = ("symbolic execution (symx) of the operations that touch process-wide or cached state (get_encoding, use_cmap, interning, init_resources, get_font, resolve_all/decipher_all, CMapDB caches), plus small end-to-end call histories driven by symbolic choices",
          "PARTIAL by design: arbitrary histories and interleavings of extract_* calls are whole-program runs; the claim is reduced to frame conditions - each operation leaves the shared tables / the document's own "
-         "dictionaries unchanged and returns what it returns in isolation, for every bounded history (Differences arrays, 3-call get_font histories over eight fonts - two sharing a descendant, two without /Encoding of which one recovers it from an embedded font program, two uses of standard-14 Helvetica with different Differences - with every EncodingDB table and the standard-14 metrics table compared before/after, encrypted-document histories (C10.H7) with caching on/off and double reads, 3-call CMapDB histories, a resource-less page after pages with fonts and forms, "
+         "dictionaries unchanged and returns what it returns in isolation, for every bounded history (Differences arrays, 3-call get_font histories over eight fonts - two sharing a descendant, two without /Encoding of which one recovers it from an embedded font program, two uses of standard-14 Helvetica with different Differences - with every EncodingDB table and the standard-14 metrics table compared before/after, encrypted-document histories (C10.H7) with caching on/off and double reads, 3-call CMapDB histories, a resource-less page after pages with fonts and forms, a three-font resource dictionary (each inline or indirect, every order) with caching on and off, "
          "2 earlier interns) - and checked end to end on every 3-call history over two documents that share object numbers and font names, with caching on/off, page-at-a-time vs together, and interleaved "
          "page iterators. The inventory of module/class-level mutable containers is recomputed from the AST on every run.",
          "4.C12")
